@@ -332,6 +332,9 @@ def main(tier):
     # Chebyshev smoothing contracts only when its bounds are estimated for the operator it iterates on (shared with C06)
     import c06
     c06.rule_chebyshev_bounds(ck, units, which=('cheb',))
+    # an application must not see what earlier ones left in overwritten outputs (even NaN / Inf): zero-coefficient overwrite of the backend primitives (shared with C07)
+    import c07
+    c07.rule_zero(ck, {k: v for k, v in units.items() if k == 'rt_builtin'}, floor=8)
     ck.assumptions += ['the residual is recognised by the backend::residual primitive (a rewrite through spmv + axpby would need the rule extended)',
                        'callee effects on the smoother scratch argument are derived from the instantiated smoothers',
                        'that B is SPD, that rho(I - BA) < 1 and exact power-of-two scaling are spectral statements and not decided']
